@@ -52,30 +52,22 @@ def _tls_domain_validated(facts, s):
         call = facts.unit(facts.method("client::conn::transport::tls::TlsTransportWrapper", "Service", "call"), expand=True)
     except KeyError:
         return False, "TlsTransportWrapper::call not found"
-    news = call.calls("client::conn::transport::tls::future::TlsConnectionFuture::new")
-    if not news:
-        return False, "TlsConnectionFuture::new is not called from TlsTransportWrapper::call"
-    for c in news:
-        def valid(lab):
-            if lab.kind == "bool" and lab.cond.kind == "call" and lab.cond.site.matches(r"Result.*::is_err$") and lab.value is False:
-                inner = call.call_defining(lab.cond.site.args[0]["c"]["l"] if "c" in lab.cond.site.args[0] else lab.cond.site.args[0]["m"]["l"])
-                return inner is not None and inner.matches(r"ServerName.*TryFrom.*try_from$|TryFrom.*try_from$")
-            if lab.kind == "bool" and lab.cond.kind == "call" and lab.cond.site.matches(r"Result.*::is_ok$") and lab.value is True:
-                return True
-            if lab.kind == "variant" and lab.variants == {"Ok"}:
-                st = call.call_defining(lab.place["l"])
-                return st is not None and st.matches(r"TryFrom.*try_from$")
-            return False
-        ok, w = call.guarded(c.bb, valid)
-        if not ok:
-            return False, "TlsConnectionFuture::new is reachable without ServerName::try_from(host) having succeeded"
-        hr = {r.desc for r in call.roots(c.args[2]) if r.kind == "call" and not r.site.matches(r"ToOwned|to_owned|String|Clone")}
-        validated = set()
-        for x in call.calls():
-            if x.matches(r"TryFrom.*try_from$") and "ServerName" in " ".join(x.t.get("targs") or []) + norm(x.name):
-                validated |= {r.desc for r in call.roots(x.args[0]) if r.kind == "call"}
-        if not (hr & validated):
-            return False, "the domain given to the TLS future is not the value that was validated with ServerName::try_from"
+    # decided by the host table of C12.3 (abstract evaluation): a TLS future is built only in the scenario in which
+    # ServerName::try_from(host) succeeded, and for exactly that host
+    import c12
+    call, tab = c12.tls_host_table(facts)
+    for scen in ("no-host", "invalid-host", "valid-host"):
+        got = tab[scen]
+        if isinstance(got, Exception):
+            return False, "the host table of TlsTransportWrapper::call is undecided (%s)" % got
+        for log in got:
+            if log is None:
+                return False, "the host table of TlsTransportWrapper::call is undecided"
+            built = [e for e in log if e.startswith("new:")]
+            if built and scen != "valid-host":
+                return False, "TlsConnectionFuture::new is reachable without ServerName::try_from(host) having succeeded"
+            if any(e != "new:HOST_valid" for e in built):
+                return False, "the domain given to the TLS future is not the value that was validated with ServerName::try_from"
     callers = {x.fn.nkey for x in facts.call_sites_of("client::conn::transport::tls::future::TlsConnectionFuture::new")}
     if not callers <= ({call.nkey} | {norm(k) for k in call.inlined}):
         return False, "TlsConnectionFuture::new has other callers: %s" % sorted(callers)
